@@ -236,7 +236,7 @@ def c16_r5(ctx):
     anns = [x for x in seq_items(body) if isinstance(x, Node) and x.kind == "AnnAssign"]
     tg = [chain(a.get("target").get("id")) for a in anns if isinstance(a.get("target"), Node)]
     ctx.check(tg == ["$type_map_name", "$schema_variable_name"], key(sm, "targets"), f"module assigns {tg}, expected the configured type-map and schema variable names", sm.loc(), okmsg="type map and schema assigned to the configured names, in that order")
-    calls = [norm(c) for c in sorted((c for c in walk_no_nested(sm.node) if isinstance(c, ast.Call) and dotted(c.func) in ("generate_type_map", "generate_schema")), key=lambda c: c.lineno)]
+    calls = [norm(c) for c in sorted((c for c in walk_no_nested(sm.node) if isinstance(c, ast.Call) and dotted(c.func) in ("generate_type_map", "generate_schema")), key=lambda c: (c.lineno, c.col_offset))]
     ctx.check(calls == ["generate_type_map(schema.type_map, type_map_name)", "generate_schema(schema, type_map_name)"], key(sm, "values"), f"values are {calls}", sm.loc(), okmsg="values = generate_type_map(schema.type_map) / generate_schema(schema)")
     for fk in (GS + "utils:get_named_type", GS + "utils:get_list_of_named_types", GS + "schema:generate_schema"):
         f2 = repo.func(fk)
